@@ -255,6 +255,152 @@ theorem lines_blocksize_independent_ieee (d data : List Nat) (hd : d ≠ []) (hb
     readTextLines ieee d data none = refLines d data :=
   lines_blocksize_independent ieee ieee_good d data hd hbf b hb hsz
 
+/-! ## 3d. several files, `files_per_partition`, `include_path` -/
+
+theorem groupsOf_flatten {γ : Type} (n : Nat) (hn : 0 < n) (fuel : Nat) (xs : List γ) (hf : xs.length ≤ fuel) :
+    (groupsOf n fuel xs).flatten = xs := by
+  induction fuel generalizing xs with
+  | zero =>
+    have : xs = [] := List.length_eq_zero_iff.mp (by omega)
+    subst this; rfl
+  | succ fuel ih =>
+    simp only [groupsOf]
+    cases xs with
+    | nil => rfl
+    | cons x xs' =>
+      simp only [List.isEmpty_cons, Bool.false_eq_true, if_false, List.flatten_cons]
+      rw [ih _ (by simp only [List.length_drop, List.length_cons] at hf ⊢; omega), List.take_append_drop]
+
+/-- the lines of all files in order, every line paired with the index of its file -/
+def allLines (d : List Nat) (files : List (List Nat)) : List (Nat × List Nat) :=
+  files.zipIdx.flatMap fun fi => (lines d fi.1).map fun l => (fi.2, l)
+
+/-- **`files_per_partition` / `include_path`**: with `blocksize=None`, whatever the grouping of files into
+    partitions, the bag is the lines of the files in order, each paired with its own file
+    (`include_path=False` is the projection to the lines). -/
+theorem read_text_files (d : List Nat) (hd : d ≠ []) (files : List (List Nat)) (fpp : Option Nat)
+    (hfpp : ∀ n, fpp = some n → 0 < n) :
+    ∃ ps, readTextFiles d files fpp = some ps ∧ ps.flatten = allLines d files := by
+  have hde : d.isEmpty = false := by cases d <;> simp_all
+  have hone : ∀ fi : List Nat × Nat, (((decode d fi.1).getD []).map fun l => (fi.2, l)) =
+      (lines d fi.1).map fun l => (fi.2, l) := by
+    intro fi; rw [decode_eq_lines d fi.1 hd]; rfl
+  cases fpp with
+  | none =>
+    refine ⟨_, by simp only [readTextFiles, hde]; rfl, ?_⟩
+    simp only [allLines, List.flatten_eq_flatMap, List.flatMap_map, hone, id]
+  | some n =>
+    cases n with
+    | zero => exact absurd (hfpp 0 rfl) (by decide)
+    | succ n =>
+      refine ⟨_, by simp only [readTextFiles, hde]; rfl, ?_⟩
+      have hg := groupsOf_flatten (n + 1) (by omega) files.length files.zipIdx (by simp)
+      have hr : allLines d files = (groupsOf (n + 1) files.length files.zipIdx).flatten.flatMap
+          fun fi => (lines d fi.1).map fun l => (fi.2, l) := by rw [hg]; rfl
+      rw [hr]
+      simp only [List.flatten_eq_flatMap, List.flatMap_map, hone, id, List.flatMap_assoc]
+
+/-- with a blocksize and a border-free delimiter: one partition per block, and again the bag is the lines
+    of the files in order paired with their file (a bag of empty files is one empty partition — repair
+    103c10e) -/
+theorem read_text_files_blocks (A : FArith) (hA : GoodArith A) (d : List Nat) (hd : d ≠ []) (hbf : BorderFree d)
+    (files : List (List Nat)) (b : Nat) (hb : 0 < b) (hsz : ∀ f ∈ files, f.length < 2 ^ 53) :
+    ∃ ps, readTextFilesBlocks A d files b = some ps ∧ ps.flatten = allLines d files := by
+  have hde : d.isEmpty = false := by cases d <;> simp_all
+  -- per file: the blocks' lines concatenate to the lines of the file
+  have hfile : ∀ f : List Nat, f.length < 2 ^ 53 → ∃ blocks, fileBlocks A f d (some b) = some blocks ∧
+      (blocks.flatMap (lines d)) = lines d f := by
+    intro f hf
+    obtain ⟨h1, h2⟩ := lines_blocksize_independent A hA d f hd hbf b hb hf
+    have hnone : readTextLines A d f none = some (lines d f) := by
+      simp only [readTextLines, fileToBlocks]; exact decode_eq_lines d f hd
+    rw [hnone] at h1
+    simp only [readTextLines] at h1
+    cases hfb : fileBlocks A f d (some b) with
+    | none => simp [hfb] at h1
+    | some blocks =>
+      refine ⟨blocks, rfl, ?_⟩
+      simp only [hfb, Option.bind_eq_bind, Option.bind_some, mapM_decode d hd, Option.pure_def, Option.some.injEq] at h1
+      rw [← h1, List.flatMap_def]
+  have key : ∀ (l : List (List Nat × Nat)), (∀ fi ∈ l, fi.1.length < 2 ^ 53) →
+      ∃ pss, (l.mapM fun fi => (fileBlocks A fi.1 d (some b)).map fun blocks =>
+          blocks.map fun blk => ((decode d blk).getD []).map fun l => (fi.2, l)) = some pss ∧
+        pss.flatten.flatten = l.flatMap fun fi => (lines d fi.1).map fun l => (fi.2, l) := by
+    intro l
+    induction l with
+    | nil => intro _; exact ⟨[], rfl, rfl⟩
+    | cons fi l ih =>
+      intro hl
+      obtain ⟨pss, hp, hflat⟩ := ih (fun x hx => hl x (List.mem_cons_of_mem _ hx))
+      obtain ⟨blocks, hb1, hb2⟩ := hfile fi.1 (hl fi (by simp))
+      refine ⟨(blocks.map fun blk => ((decode d blk).getD []).map fun l => (fi.2, l)) :: pss,
+        by simp [List.mapM_cons, hb1, hp], ?_⟩
+      simp only [List.flatten_cons, List.flatten_append, hflat, List.flatMap_cons]
+      congr 1
+      rw [← hb2]
+      simp only [List.flatten_eq_flatMap, List.flatMap_map, List.map_flatMap, id]
+      have hfun : (fun blk => List.map (fun l => (fi.2, l)) ((decode d blk).getD [])) =
+          fun a => List.map (fun l => (fi.2, l)) (lines d a) := by
+        funext blk; rw [decode_eq_lines d blk hd]; rfl
+      rw [hfun]
+  obtain ⟨pss, hp, hflat⟩ := key files.zipIdx (by
+    intro fi hfi
+    have := List.mem_zipIdx hfi
+    have hmem : fi.1 ∈ files := by rw [this.2.2]; exact List.getElem_mem _
+    exact hsz _ hmem)
+  refine ⟨if pss.flatten.isEmpty then [[]] else pss.flatten, by simp only [readTextFilesBlocks, hde]; simp [hp], ?_⟩
+  simp only [allLines, ← hflat]
+  split
+  · next h => simp [List.isEmpty_iff.mp h]
+  · rfl
+
+/-! ## 3e. the default `linedelimiter=None` (universal newlines) -/
+
+theorem univLines_eq (t : List Nat) : univLines t = some (lines [10] (translateNL t)) := by
+  simp only [univLines]
+  rw [← decode_eq_refLines [10] _ (by simp), decode_eq_lines [10] _ (by simp)]
+
+/-- **`read_text` with the default delimiter**: blocks are cut after `\n`, each block is read in
+    universal-newlines mode (`\r\n` and `\r` become `\n`) — the lines are the same for every blocksize as
+    for `blocksize=None`, because a block boundary after `\n` can never separate `\r` from `\n`. -/
+theorem univ_blocksize_independent (A : FArith) (hA : GoodArith A) (data : List Nat) (b : Nat) (hb : 0 < b)
+    (hsz : data.length < 2 ^ 53) : readTextUniv A data (some b) = readTextUniv A data none := by
+  have hbf : BorderFree [10] := by unfold BorderFree; decide
+  have hd : ([10] : List Nat) ≠ [] := by simp
+  have hmap : ∀ blocks : List (List Nat), blocks.mapM univLines =
+      some (blocks.map fun t => lines [10] (translateNL t)) := by
+    intro blocks
+    induction blocks with
+    | nil => rfl
+    | cons x xs ih => simp [List.mapM_cons, univLines_eq, ih]
+  simp only [readTextUniv]
+  rw [univLines_eq]
+  by_cases hs : data.length = 0
+  · have : data = [] := List.length_eq_zero_iff.mp hs
+    subst this
+    simp [fileBlocks, plan, offsets, lengthsOf, translateNL, lines, linesAux_nil]
+  · obtain ⟨offs, ho, h0, hpw, hlt⟩ := offsets_planOK A hA data.length b (by omega) hb hsz
+    have hfb : fileBlocks A data [10] (some b) = some (blocksOf data [10] offs) := by
+      simp [fileBlocks, plan, ho, blocksOf]
+    simp only [hfb, Option.bind_eq_bind, Option.bind_some, hmap, Option.pure_def, Option.some.injEq]
+    cases offs with
+    | nil => simp at h0
+    | cons o rest =>
+      have : o = 0 := by simpa using h0
+      subst this
+      have hgood := blocksOf_good hd hbf rest 0 hpw hlt
+      have hflat := blocksOf_flatten hd rest 0 hpw hlt
+      rw [seekPos_zero, List.drop_zero] at hflat
+      have := GoodBlocks.flatMap_eq (d := [10]) (fun t => lines [10] (translateNL t))
+        (by simp [translateNL, lines, linesAux_nil])
+        (by
+          intro u v hu
+          obtain ⟨h1, h2⟩ := translateNL_append u v hu
+          simp only [h1]
+          exact linesAux_append hd hbf [] _ _ h2) _ hgood
+      rw [hflat] at this
+      rw [← this, List.flatMap_def]
+
 /-! ## 4. refutation witnesses (statements that are / were false of the code) -/
 
 /-- DESIGN §6 #11 (finding): with the self-overlapping delimiter `aa` the lines of `aaab` depend on
